@@ -639,6 +639,19 @@ pub fn cmd_sign(t: &mut Toks) -> String {
                 muts.push(("content[0]".into(), p));
             }
         }
+        // content / tag strings that are NOT valid UTF-8 (from_parts does not validate): the serialisation fails part-way
+        for (name, tail) in [("content+C3", vec![0xC3u8]), ("content+FF", vec![0xFF]), ("content+E282", vec![0xE2, 0x82]), ("content+F0", vec![b'"', 0xF0, 0x9F])] {
+            let mut p = base();
+            p.content.extend(tail);
+            muts.push((name.into(), p));
+        }
+        if let Some(tg) = tags.first() {
+            if !tg.is_empty() {
+                let mut p = base();
+                p.tags[0][0].push(0xC3);
+                muts.push(("tag[0][0]+C3".into(), p));
+            }
+        }
         // "\n" as one character vs the two characters backslash + n
         let mut p = base();
         p.content = String::from_utf8_lossy(&content).replace('\n', "\\n").into_bytes();
@@ -706,6 +719,11 @@ pub fn cmd_sign(t: &mut Toks) -> String {
                 }
                 if v0 && ev.verify().is_err() {
                     after.push(name);
+                } else if let Ok(again) = OwnedEvent::sign_new(&kp, Kind::from_u16(kind), &otags, Time::from_u64(created), &content) {
+                    // ... and signing the same parts again must give the same id
+                    if again.id().as_slice() != &id[..] {
+                        after.push(format!("{name}:sign_new-id-differs"));
+                    }
                 }
             }
             Err(_) => {}
